@@ -34,7 +34,9 @@ RULE = ("histories of 8-18 iterations over topologies of 1-3 interfaces (+ optio
         "registrations with explicit and automatic addresses, unregistration, injected queries on every "
         "interface/family, browsing with injected responses learned on one or two interfaces, IP checks every 1 s or "
         "5 s; one case = one history; non-trivial = the daemon sent a packet or reported an event; distinct = distinct "
-        "histories")
+        "histories.  Restrictions that keep the observation a function of the history: one fixed IPv4 address per "
+        "interface (IPv6 addresses are added, removed and moved freely), at most three browsed instances, identical "
+        "content when an announcement is heard again, only explicit time steps")
 TRUSTED = [
     "Coq 8.16.1 kernel (coqc); vm_compute only in the non-vacuity Examples",
     "axioms: none (Print Assumptions: Closed under the global context for every theorem)",
@@ -45,6 +47,10 @@ TRUSTED = [
     "Model/IntfDaemon.v is an executable model of the daemon restricted to the features C18 observes; it is "
     "validated against the Rust by the correspondence run, its history-level invariants are checked by chk_C18 on "
     "every trace (model and implementation) but proved only for the interface table (see PARTIAL)",
+    "observation function of the simulated world: an IPv4 packet is reported on the interface that owns, in the OS "
+    "table of the moment, the address given to IP_MULTICAST_IF; the interface of goodbye packets is compared only by "
+    "the monitor (their repetition is sent without setting it); per browsed instance only the last "
+    "resolved/removed event of an iteration is compared (HashMap order of simultaneous interface removals)",
     "modelled, not verified: the daemon's own queries, probing, SearchStarted and monitor events other than IpAdd/IpDel "
     "are removed from the observation; record expiry is outside the histories (TTL 4500 s, histories < 40 s)",
 ]
@@ -91,10 +97,12 @@ def ip_plus(a, n):
 def peer_of(e, rng):
     a = ipaddress.ip_address(e["addr"])
     if a.version == 4:
-        return ip_plus(a, rng.randrange(1, 200))
+        # anywhere in the subnet: a /16 (or the /8 of the loopback) also varies the third octet
+        wide = e.get("mask") in ("255.255.0.0", "255.0.0.0")
+        return ip_plus(a, rng.randrange(1, 200) + (256 * rng.randrange(0, 200) if wide else 0))
     if a.is_loopback:
         return "::1"
-    return ip_plus(a, rng.randrange(0x100, 0xffff))
+    return ip_plus(a, rng.randrange(0x100, 0xffff) + (rng.randrange(0, 0xffff) << 32))
 
 
 def gen_kind(rng, tbl_all):
